@@ -4080,7 +4080,7 @@ def _extract_meta(x, nonempty=False):
         for k in x:
             res[k] = _extract_meta(x[k], nonempty)
         return res
-    elif hasattr(x, "expr"):
+    elif isinstance(getattr(x, "expr", None), Expr):
         return _extract_meta(x.expr, nonempty)
     else:
         return x
